@@ -1,4 +1,5 @@
 import IkeProofs.Lemmas.Sk
+import IkeProofs.Lemmas.PrimsReal
 
 /-!
 # C06 — the SK payload follows RFC 7296 §3.14 and interoperates
@@ -130,5 +131,12 @@ example :
     [43, 0, 0, 7, 1, 2, 3, 0, 0, 0, 5, 9] (List.replicate 16 0xAA) (List.replicate 19 0x55) rfl (by decide) (by decide)
     (by decide) SkEx.msg.payloads (by decide +kernel)).2.1 hdr hh
   rw [this]
+
+/-- The hypothesis `P.Lawful` of the theorems above (protect = RFC 7296 §3.14, any legal padding accepted) is not an assumption about the
+primitives the model actually runs: the executable SHA-256 / SHA-1 / MD5 / HMAC / AES of
+`IkeModel/Crypto` — the ones the correspondence suites compare byte for byte with Go's standard
+library — satisfy it (digest lengths; AES block length; `dec k (enc k b) = b` for every key and
+block, proved from FIPS-197's inverse structure in `Lemmas/PrimsReal.lean`). -/
+theorem C06_real_lawful : Prims.real.Lawful := Prims.real_lawful
 
 end Ike
